@@ -10,7 +10,7 @@ a shared level address."""
 from vlib.harness.runner import Result, Part, exc_signature
 from vlib.ref import netaddr, frag as rfrag
 from vlib.sim.core import MS, SimHorizon
-from vlib.checks.netutil import Net, air_frames
+from vlib.checks.netutil import with_id0, Net, air_frames
 
 PROPERTY = "C14"
 LEVEL = "exploration"
@@ -92,7 +92,7 @@ def run_case(case):
     if case.get("kind") == "relay-frames":
         return run_relay_frames(case)
     res = Result()
-    net = Net(horizon_ms=120_000)
+    net = Net(horizon_ms=120_000, id0=case.get("id0", 0))
     snd, lvl_arg = case["sender"], case["level"]
     msg = bytes.fromhex(case["msg"])
     typ = case["type"]
@@ -403,10 +403,15 @@ def _enum_relay_frames():
                             yield {"kind": "relay-frames", "level": level, "role": role, "type": typ, "tail": tail, "origin": origin, "frames": list(w)}
 
 
-def parts(tier):
+def _parts(tier):
     if tier == "quick":
         return [Part("relay-frame-by-frame", "enum", _enum_relay_frames, exhaustive=True), Part("enum-sender-class-x-level", "enum", _enum, exhaustive=True), Part("write-racing-the-multicast-sweep", "enum", _enum_racing(250), exhaustive=True), Part("enum-history-and-relays", "enum", _enum_history, exhaustive=True),
                 Part("generated", "gen", _strategy, n=300)]
     return [Part("relay-frame-by-frame", "enum", _enum_relay_frames, exhaustive=True), Part("enum-sender-class-x-level", "enum", _enum, exhaustive=True), Part("write-racing-the-multicast-sweep", "enum", _enum_racing(50), exhaustive=True),
             Part("enum-history-and-relays", "enum", _enum_history, exhaustive=True),
             Part("generated", "gen", _strategy, n=15000)]
+
+
+def parts(tier):
+    # every case also carries a starting value of the 16-bit frame-id counter (netutil.with_id0)
+    return [with_id0(p) for p in _parts(tier)]
